@@ -105,7 +105,9 @@ def handleOp (op impl : String) : Out :=
 
 def handle (line : String) : Out :=
   match line.splitOn "\t" with
-  | [op, impl] => handleOp op impl
+  | [op, impl] =>
+    -- not evaluated (harness stopped running ops after repeated process crashes)
+    if impl.startsWith "NOT-RUN" then { model := impl, spec := "*" } else handleOp op impl
   | [op] => handleOp op ""
   | _ => badOp
 
